@@ -719,7 +719,8 @@ def check_c14(tier, seed, chk):
         return path, run_zoo(binary, ["--test", "--include-ignored", "--exact", path], timeout=120)
 
     step = 1 if tier == "thorough" or len(listed) < 600 else 2
-    for path, r in pmap(feed, listed[::step]):
+    # (a path that contains a NUL cannot be written on a command line)
+    for path, r in pmap(feed, [p for p in listed[::step] if "\0" not in p]):
         count_run(res, r, len(r.log))
         want = expected_records(model, by_path.get(path, []))
         got = observed_records(r)
@@ -774,7 +775,8 @@ def check_c17(tier, seed, chk):
     def alone(cse):
         return cse, run_zoo(binary, ["--test", "--include-ignored", "--exact", cse["path"]], timeout=120)
 
-    generic_or_args = [c for c in cases if c["arg"] is not None or c["type"] or c["const"]]
+    # (a path that contains a NUL cannot be written on a command line: those cases are covered by the family runs of (b))
+    generic_or_args = [c for c in cases if (c["arg"] is not None or c["type"] or c["const"]) and "\0" not in c["path"]]
     for cse, r in pmap(alone, generic_or_args):
         count_run(res, r, len(r.log))
         if not check_args_once(res, {"check": "case-alone", "generic": bool(cse["type"] or cse["const"])}, "--test --exact %r" % cse["path"], r):
@@ -813,7 +815,7 @@ def check_c17(tier, seed, chk):
                 keep_cases = mine
                 if sub is not None:
                     kind, a = sub
-                    esc = re.escape(a)
+                    esc = re.escape(a).replace("\\000", "\\x00").replace("\0", "\\x00")
                     if kind == "only":
                         argv = ["--test", "--include-ignored", sort[0], sort[1], fam + "(.*::)?" + esc + "$"]
                         keep_cases = [c for c in mine if c["arg"] == a]
